@@ -1,8 +1,8 @@
 (* C08 - A reset restores the world: episodes are independent of earlier episodes.
-   Statements only; proofs in Proofs/WorldInv.v, Proofs/LoadFacts.v. *)
+   Statements only; proofs in Proofs/WorldInv.v, Proofs/LoadFacts.v, Proofs/CoordViews.v, Proofs/Game.v. *)
 From stdpp Require Import gmap.
 From Coq Require Import ZArith NArith.
-From NSG Require Import Model.World Model.Load Proofs.WorldStep Proofs.WorldInv Proofs.LoadFacts.
+From NSG Require Import Model.Coord Proofs.CoordViews Model.World Model.Load Model.Game Proofs.WorldStep Proofs.WorldInv Proofs.LoadFacts Proofs.Game.
 
 (* no action ever changes the static tables or the pristine copies *)
 Theorem C08_static : forall w v a, same_static w (fst (step w v a)).
@@ -34,7 +34,27 @@ Example C08_nonvacuous :
   fw_allows (reset w1) 3232235778%N 3232235779%N = true.
 Proof. vm_compute. repeat split; reflexivity. Qed.
 
+(* the whole game (Model/Game.v: coordinator model on the world model): whatever was played by however many agents in
+   whatever interleaving, when the reset task resets the game the world is exactly the pristine scenario world again;
+   and the static part of the world never changes at all *)
+Theorem C08_whole_game : forall (sp : role -> start_pos) (goal : role -> view -> bool) (detect : list gaction -> gaction -> bool)
+    (cfg : config) (w0 : world) (os : list (list ip)) (ls : list (@label gaction)) (s s' : @state view gworld gaction),
+  pristine w0 ->
+  @execs view gworld gaction g_wstep g_wreset (g_winit sp) goal detect cfg (init_state (w0, os)) ls = Some s ->
+  @reset_run view gworld gaction g_wreset (g_winit sp) cfg s = Some s' ->
+  ((match agents s with [] => false | _ => true end) && all_req (agents s)) = true ->
+  fst (Coord.world s') = w0.
+Proof. exact game_reset_restores. Qed.
+
+Theorem C08_whole_game_static : forall (sp : role -> start_pos) (goal : role -> view -> bool) (detect : list gaction -> gaction -> bool)
+    (cfg : config) (w0 : world) (os : list (list ip)) (ls : list (@label gaction)) (s : @state view gworld gaction),
+  @execs view gworld gaction g_wstep g_wreset (g_winit sp) goal detect cfg (init_state (w0, os)) ls = Some s ->
+  same_static w0 (fst (Coord.world s)).
+Proof. exact game_world_static. Qed.
+
 Print Assumptions C08_static.
 Print Assumptions C08_reset_play.
 Print Assumptions C08_restore.
 Print Assumptions C08_independent.
+Print Assumptions C08_whole_game.
+Print Assumptions C08_whole_game_static.
